@@ -120,6 +120,29 @@ fn run(v: &serde_lite::Value) -> String {
                 t => format!("{{\"error\":\"unknown type {}\"}}", t),
             }
         }
+        "glam_lerp" => {
+            // component-wise interpolation of a glam vector type: components are passed as decimal strings
+            use mina_core::interpolation::Lerp;
+            use glam::*;
+            let x = f(v.get("x"));
+            let a: Vec<f64> = v.list("a").iter().map(|s| s.parse().unwrap()).collect();
+            let b: Vec<f64> = v.list("b").iter().map(|s| s.parse().unwrap()).collect();
+            macro_rules! v2 { ($T:ident, $e:ty) => {{ let r = <$T as Lerp>::lerp(&$T::new(a[0] as $e, a[1] as $e), &$T::new(b[0] as $e, b[1] as $e), x);
+                let c = [<$e as Lerp>::lerp(&(a[0] as $e), &(b[0] as $e), x), <$e as Lerp>::lerp(&(a[1] as $e), &(b[1] as $e), x)];
+                format!("{{\"r\":\"{:?}\",\"componentwise\":\"{:?}\",\"same\":{}}}", [r.x, r.y], c, [r.x, r.y] == c) }} }
+            macro_rules! v3 { ($T:ident, $e:ty) => {{ let r = <$T as Lerp>::lerp(&$T::new(a[0] as $e, a[1] as $e, a[2] as $e), &$T::new(b[0] as $e, b[1] as $e, b[2] as $e), x);
+                let c = [<$e as Lerp>::lerp(&(a[0] as $e), &(b[0] as $e), x), <$e as Lerp>::lerp(&(a[1] as $e), &(b[1] as $e), x), <$e as Lerp>::lerp(&(a[2] as $e), &(b[2] as $e), x)];
+                format!("{{\"r\":\"{:?}\",\"componentwise\":\"{:?}\",\"same\":{}}}", [r.x, r.y, r.z], c, [r.x, r.y, r.z] == c) }} }
+            macro_rules! v4 { ($T:ident, $e:ty) => {{ let r = <$T as Lerp>::lerp(&$T::new(a[0] as $e, a[1] as $e, a[2] as $e, a[3] as $e), &$T::new(b[0] as $e, b[1] as $e, b[2] as $e, b[3] as $e), x);
+                let c = [<$e as Lerp>::lerp(&(a[0] as $e), &(b[0] as $e), x), <$e as Lerp>::lerp(&(a[1] as $e), &(b[1] as $e), x), <$e as Lerp>::lerp(&(a[2] as $e), &(b[2] as $e), x), <$e as Lerp>::lerp(&(a[3] as $e), &(b[3] as $e), x)];
+                format!("{{\"r\":\"{:?}\",\"componentwise\":\"{:?}\",\"same\":{}}}", [r.x, r.y, r.z, r.w], c, [r.x, r.y, r.z, r.w] == c) }} }
+            match v.get("ty") {
+                "Vec2" => v2!(Vec2, f32), "DVec2" => v2!(DVec2, f64), "IVec2" => v2!(IVec2, i32), "I64Vec2" => v2!(I64Vec2, i64), "UVec2" => v2!(UVec2, u32), "U64Vec2" => v2!(U64Vec2, u64),
+                "Vec3" => v3!(Vec3, f32), "Vec3A" => v3!(Vec3A, f32), "DVec3" => v3!(DVec3, f64), "IVec3" => v3!(IVec3, i32), "I64Vec3" => v3!(I64Vec3, i64), "UVec3" => v3!(UVec3, u32), "U64Vec3" => v3!(U64Vec3, u64),
+                "Vec4" => v4!(Vec4, f32), "DVec4" => v4!(DVec4, f64), "IVec4" => v4!(IVec4, i32), "I64Vec4" => v4!(I64Vec4, i64), "UVec4" => v4!(UVec4, u32), "U64Vec4" => v4!(U64Vec4, u64),
+                t => format!("{{\"error\":\"unknown glam type {}\"}}", t),
+            }
+        }
         _ => format!("{{\"error\":\"unknown kind {}\"}}", kind),
     }
 }
